@@ -83,6 +83,31 @@ def r1_validators(ctx):
                 ctx.violation("C15.R1", f, st_, f"the refusal of {what} {kind} `{g_[:80]}`: some malformed definitions are accepted", construct=f"refusal unconditional: {what}")
             if not side:
                 ctx.ok("C15.R1", f, c.stmt[r], f"refusal of {what}: no side condition", construct=f"refusal unconditional: {what}")
+    # the validators are handed the whole graph: the complete children map / edge map / node set, never a filtered part of it
+    SITES = [
+        ("_compute_direct_children", ["?ch = {?n: frozenset(?ch[?n]) for ?n in $1}", "$0._raise_if_left_alone_nodes(?ch, $0.direct_ancestors)", "return ?ch"], "_raise_if_left_alone_nodes",
+         "the isolated-variable refusal is run on the children map of every node and the full ancestors map"),
+        ("_check_consistency_of_nodes", ["?nd = frozenset($0.variables.keys())", "$0._raise_if_bad_nodes_in_edges($0.direct_ancestors, ?nd, what='ancestors')", "return ?nd"], "_raise_if_bad_nodes_in_edges",
+         "the unknown-node / self-loop refusal is run on the full ancestors map against all declared nodes"),
+        ("_compute_topological_orders", ["?sn, ?pm = $0.compute_topological_order_and_path_matrix($1, $0.direct_ancestors)"], "compute_topological_order_and_path_matrix",
+         "the cycle refusal is run on the complete children / ancestors maps"),
+    ]
+    for fn, pats, callee, meaning in SITES:
+        f = ix.func(DAG, f"{CLS}.{fn}", "C15.R1")
+        L_ = Canon(f.node).lines(False, True)
+        b_ = unify(L_, pats)
+        in_order = b_ is not None and all(b_[f"#{i}"] < b_[f"#{i + 1}"] for i in range(len(pats) - 1))
+        calls_ = [ln for ln in L_ if callee + "(" in ln]
+        text = calls_[0] if calls_ else ""
+        if in_order:
+            ctx.ok("C15.R1", f, f.node, meaning, construct=f"arguments of {callee}")
+        else:
+            import re as _re
+            filtered = bool(_re.search(r"\bfor\b.*\bif\b", text)) or "filter(" in text
+            if filtered:
+                ctx.violation("C15.R1", f, f.node, f"`{text[:110]}` hands the validator a filtered part of the graph: the malformed definitions among the nodes left out are accepted", construct=f"arguments of {callee}")
+            else:
+                ctx.anchor(False, "C15.R1", f, f.node, "", f"call of {callee} with the complete structures", construct=f"arguments of {callee}")
     f = ix.func(DAG, f"{CLS}.compute_topological_order_and_path_matrix", "C15.R1")
     L = Canon(f.node).lines(False, True)
     ok = unify(L, ["?sn += (?n,)", "if set(?sn) != set(?nodes)", "return (?sn, ?pm)"]) is not None
